@@ -5,7 +5,8 @@ From Coq Require Import List NArith ZArith Lia.
 From FlacBase Require Import Res.
 From FlacCodec Require Ast Stream Header Wf Enc Enc_proofs Dec.
 From FlacWriters Require Import Meta Params Params_proofs Finalize Writers Lists_proofs Writers_proofs Bytes_proofs Cross_proofs.
-From FlacE2E Require Import Bridge E2E SeekE2E.
+From FlacReaders Require Readers Spec Ser RNum Seek.
+From FlacE2E Require Import Bridge E2E SeekE2E ReadBridge SeekReadE2E.
 Import ListNotations.
 Open Scope N_scope.
 
@@ -130,4 +131,77 @@ Proof.
               ltac:(rewrite Hcat1; exact Hfit) ltac:(rewrite Hcat1; exact HW) ltac:(rewrite Hcat1; exact Hlen) Htot')
     as (f & blocks & audio & A & B & C & D).
   rewrite Hcat1 in C. exists f, blocks, audio. auto.
+Qed.
+
+(* C06 on files written through the other two front-ends *)
+Theorem byte_written_file_seeks : forall o L md5, (forall l, length (md5 l) = 16%nat) ->
+  forall p rate bps en wo ch tb wb chunks iv e rp,
+  options_wf wo -> o_seektable_interval wo = Some iv ->
+  byte_new p en [] wo rate bps ch tb = Ok wb ->
+  Forall byte_ok (concat chunks) ->
+  let samples := decoded en (N.to_nat (bytes_per_sample_of bps)) (concat chunks) in
+  forallb (FlacCodec.Wf.fits bps) samples = true ->
+  let W := N.of_nat (length samples) / ch in
+  let written := firstn (N.to_nat ch * (length samples / N.to_nat ch)) samples in
+  1 <= W -> N.of_nat (length samples) < 2 ^ 36 ->
+  match tb with Some T => T = bytes_per_sample_of bps * (ch * W) | None => True end ->
+  exists f blocks,
+    byte_run (encB o L rate bps) md5 p wb chunks = Ok f /\
+    forall pts, first_seektable (f_blocks f) = Some pts ->
+    exists table, Forall2 (point_rel blocks) pts table /\
+      let F := file_of_blocks_seek blocks ch bps (Some (EP.blocks_samples blocks)) table e rp in
+      FlacReaders.Spec.valid_file F /\ FlacReaders.Spec.pcm F = written /\
+      forall ops, Forall FlacReaders.Spec.sop_ok (snd (FlacReaders.Seek.sample_run F ops)) ->
+        let atr := map (FlacReaders.Spec.abs_s F) (snd (FlacReaders.Seek.sample_run F ops)) in
+        Forall (FlacReaders.Spec.cur_ok written) atr /\
+        FlacReaders.Spec.chained 0 atr (FlacReaders.Spec.spos F (fst (FlacReaders.Seek.sample_run F ops))) /\
+        FlacReaders.Spec.seeks_land written atr /\ FlacReaders.Spec.failed_seeks_safe written atr.
+Proof.
+  intros o L md5 Hmd p rate bps en wo ch tb wb chunks iv e rp Hwf Hiv Hnew Hbytes samples Hfit W written HW Hlen Htot.
+  destruct (byte_new_sample_new p en wo rate bps ch tb wb Hnew) as (ts & ws & Hs & Et).
+  rewrite (byte_writer_is_sample_writer (encB o L rate bps) md5 p en wo rate bps ch tb ts wb ws chunks Hwf Hnew Hs Et Hbytes).
+  fold samples.
+  assert (Hcat1 : concat [samples] = samples) by (cbn [concat]; apply app_nil_r).
+  assert (Htot' : match ts with Some T => T = ch * (N.of_nat (length (concat [samples])) / ch) | None => True end).
+  { rewrite Hcat1. fold W. subst tb. destruct ts as [T|]; [|exact I]. cbn [option_map] in Htot.
+    assert (1 <= bytes_per_sample_of bps) by (unfold bytes_per_sample_of; pose proof Hs as H; unfold sample_new in H; apply bind_ok in H;
+      destruct H as (b' & Hb & _); unfold signed_bit_count_32 in Hb; destruct ((1 <=? bps) && (bps <=? 32)) eqn:Eq; [|discriminate];
+      apply andb_prop in Eq; destruct Eq as [A _]; apply N.leb_le in A; apply N.div_le_lower_bound; lia).
+    nia. }
+  pose proof (written_file_seeks o L md5 Hmd p rate bps wo ch ts ws [samples] iv e rp Hwf Hiv Hs) as H.
+  rewrite Hcat1 in H. exact (H Hfit HW Hlen ltac:(rewrite Hcat1 in Htot'; exact Htot')).
+Qed.
+
+Theorem channel_written_file_seeks : forall o L md5, (forall l, length (md5 l) = 16%nat) ->
+  forall p rate bps wo ch tc wc chunks iv e rp,
+  options_wf wo -> o_seektable_interval wo = Some iv ->
+  channel_new p [] wo rate bps ch tc = Ok wc ->
+  Forall (chunk_ok (N.to_nat ch)) chunks ->
+  let samples := concat (multizip (cconcat (N.to_nat ch) chunks)) in
+  forallb (FlacCodec.Wf.fits bps) samples = true ->
+  let W := N.of_nat (length samples) / ch in
+  let written := firstn (N.to_nat ch * (length samples / N.to_nat ch)) samples in
+  1 <= W -> N.of_nat (length samples) < 2 ^ 36 ->
+  match tc with Some T => T = W | None => True end ->
+  exists f blocks,
+    channel_run (encB o L rate bps) md5 p wc chunks = Ok f /\
+    forall pts, first_seektable (f_blocks f) = Some pts ->
+    exists table, Forall2 (point_rel blocks) pts table /\
+      let F := file_of_blocks_seek blocks ch bps (Some (EP.blocks_samples blocks)) table e rp in
+      FlacReaders.Spec.valid_file F /\ FlacReaders.Spec.pcm F = written /\
+      forall ops, Forall FlacReaders.Spec.sop_ok (snd (FlacReaders.Seek.sample_run F ops)) ->
+        let atr := map (FlacReaders.Spec.abs_s F) (snd (FlacReaders.Seek.sample_run F ops)) in
+        Forall (FlacReaders.Spec.cur_ok written) atr /\
+        FlacReaders.Spec.chained 0 atr (FlacReaders.Spec.spos F (fst (FlacReaders.Seek.sample_run F ops))) /\
+        FlacReaders.Spec.seeks_land written atr /\ FlacReaders.Spec.failed_seeks_safe written atr.
+Proof.
+  intros o L md5 Hmd p rate bps wo ch tc wc chunks iv e rp Hwf Hiv Hnew Hchunks samples Hfit W written HW Hlen Htot.
+  destruct (channel_new_sample_new p wo rate bps ch tc wc Hnew) as (ts & ws & Hs & Et).
+  rewrite (channel_writer_is_sample_writer (encB o L rate bps) md5 p wo rate bps ch tc ts wc ws chunks Hwf Hnew Hs Et Hchunks).
+  fold samples.
+  assert (Hcat1 : concat [samples] = samples) by (cbn [concat]; apply app_nil_r).
+  assert (Htot' : match ts with Some T => T = ch * (N.of_nat (length samples) / ch) | None => True end).
+  { fold W. subst ts. destruct tc as [T|]; [|exact I]. cbn [option_map]. rewrite Htot. reflexivity. }
+  pose proof (written_file_seeks o L md5 Hmd p rate bps wo ch ts ws [samples] iv e rp Hwf Hiv Hs) as H.
+  rewrite Hcat1 in H. exact (H Hfit HW Hlen Htot').
 Qed.
